@@ -14,7 +14,7 @@ import ast
 from typing import Dict, List, Set, Tuple
 
 from engine.absint import Absint
-from engine.index import AnalysisError, Program, unparse
+from engine.index import AnalysisError, Program, unparse, walk_no_nested
 from engine.report import Report, mk_finding, norm
 
 from .common import EXEMPT_PROGRESS, ALLOWED_AT_BOUNDARY, BOUNDARY_ROOTS, PARSER_ENTRIES, origin_finding, receive_config, record_obligations
@@ -141,6 +141,46 @@ def run(rep: Report, prog: Program, tier: str) -> None:
         else:
             rep.ok("C05-PROG", what, sample=f"{rec['cursor']} increases by >= 1 on every back edge @ {fi.module.relpath}:{node.lineno}")
 
+    # (c') a loop whose exit test is a *serial* comparison terminates only if the cursor stays in the modular domain:
+    # stepping it with plain `+` walks past the wrap and the comparison never turns false
+    import re as _re
+    n_serial = 0
+    for fn in sorted(ai.analysed_funcs):
+        fi = prog.functions.get(fn)
+        if fi is None:
+            continue
+        for node in walk_no_nested(fi.node):
+            if not isinstance(node, ast.While):
+                continue
+            calls = [c for c in ast.walk(node.test) if isinstance(c, ast.Call) and _re.fullmatch(r"uint(16|32)_(gt|gte)", unparse(c.func))]
+            for c in calls:
+                width = _re.fullmatch(r"uint(16|32)_(gt|gte)", unparse(c.func)).group(1)
+                cursors = [a.id for a in c.args if isinstance(a, ast.Name)]
+                for cur_name in cursors:
+                    steps = [a for a in ast.walk(node) if isinstance(a, (ast.Assign, ast.AugAssign))
+                             and any(isinstance(t, ast.Name) and t.id == cur_name for t in (a.targets if isinstance(a, ast.Assign) else [a.target]))]
+                    if not steps:
+                        continue
+                    n_serial += 1
+                    bad_steps = []
+                    for a in steps:
+                        v = a.value
+                        modular = isinstance(a, ast.Assign) and (
+                            (isinstance(v, ast.Call) and unparse(v.func) in (f"uint{width}_add", "tsn_plus_one", "tsn_minus_one"))
+                            or (isinstance(v, ast.BinOp) and isinstance(v.op, (ast.Mod, ast.BitAnd))))
+                        if not modular:
+                            bad_steps.append(a)
+                    what = f"{fn}: while {unparse(node.test)} (serial cursor {cur_name})"
+                    if bad_steps:
+                        rep.fail(mk_finding(prog, PROP, "C05-PROG", fi, bad_steps[0],
+                                            f"the loop `while {unparse(node.test)}` compares `{cur_name}` modulo 2^{width} but steps it with `{unparse(bad_steps[0])}`: when the range "
+                                            f"crosses the wrap the cursor leaves the number space, the comparison stays true and the receive path spins forever",
+                                            construct=f"serial cursor step {unparse(bad_steps[0])}"))
+                    else:
+                        rep.ok("C05-PROG", what, sample=f"stepped only with uint{width}_add / modulo")
+    if n_serial < 1:
+        raise AnalysisError("no serial-cursor loop found on the receive path (NackGenerator.add expected)")
+
     # (d) cost
     from .cost import check_cost
     check_cost(rep, prog, ai, PROP)
@@ -157,3 +197,47 @@ def run(rep: Report, prog: Program, tier: str) -> None:
     })
     if len(ai.analysed_funcs) < 60:
         raise AnalysisError(f"only {len(ai.analysed_funcs)} functions analysed from the receive roots; expected >= 60")
+
+    # (e) timer typestate: the `assert handle is None` of the SCTP timer starters is an assertion over local state that the
+    # facts domain cannot carry across an await; it is decided here as a typestate rule instead (cancel/guard before start).
+    from engine.events import EventsDomain, EvState
+    rep.rule("C05-TIMER", "every _tN_start() is preceded on every path by _tN_cancel() or a handle-is-None guard (its assert cannot fire on a repeated chunk)", min_instances=5)
+    T = "rtcsctptransport.RTCSctpTransport"
+    FIRST_ARM = {f"{T}._init": "called exactly once, from start() under the __started latch, before any other T1 user can run"}
+    starters = {f"self._t{n}_start": str(n) for n in (1, 2, 3)}
+    n_sites = 0
+    for fi in prog.cls(T).methods.values():
+        if fi.name.endswith("_expired") or not any(isinstance(n, ast.Call) and unparse(n.func) in starters for n in walk_no_nested(fi.node)):
+            continue
+
+        def ev_of(node, f):
+            if isinstance(node, ast.Call):
+                nm = unparse(node.func)
+                for n in ("1", "2", "3"):
+                    if nm == f"self._t{n}_cancel":
+                        return [f"t{n}-clear"]
+                    if nm == f"self._t{n}_start":
+                        return [f"-t{n}-clear"]
+            return []
+        sites = []
+
+        def ob(node, st: EvState, f, sites=sites):
+            if isinstance(node, ast.Call) and unparse(node.func) in starters:
+                n = starters[unparse(node.func)]
+                guarded = st.has_guard(f"not self._t{n}_handle", True) or st.has_guard(f"self._t{n}_handle is None", True) or st.has_guard(f"self._t{n}_handle", False)
+                sites.append((node, n, f"t{n}-clear" in st.events, guarded))
+        EventsDomain(prog, ev_of, ob, kill_guards_on_call=False).run(fi)
+        for node, n, cleared, guarded in sites:
+            n_sites += 1
+            what = f"{fi.qualname}: {unparse(node)[:60]} @ line {node.lineno}"
+            if cleared or guarded:
+                rep.ok("C05-TIMER", what, sample=f"_t{n}_cancel() on every path before it" if cleared else f"guarded by the T{n} handle being unset")
+            elif fi.qualname in FIRST_ARM:
+                rep.ok("C05-TIMER", what, sample="first arming: " + FIRST_ARM[fi.qualname])
+            else:
+                rep.fail(mk_finding(prog, PROP, "C05-TIMER", fi, node,
+                                    f"T{n} is started without _t{n}_cancel() or a handle check on every path before it: a repeated chunk (retransmitted because our reply was lost) "
+                                    f"trips `assert self._t{n}_handle is None`, the AssertionError escapes _handle_data and closes the DTLS transport",
+                                    construct=f"_t{n}_start without cancel"))
+    if n_sites < 5:
+        raise AnalysisError(f"only {n_sites} timer start sites found")
